@@ -129,6 +129,10 @@ class Harness:
             while len(pos) < site["npos"]:
                 pos.append(pos[-1] if pos else None)
             kws = {n: loc.get(n) for n in site.get("kws", [])}
+        elif act[2] == "raw":
+            # forward ready-made objects (set by Program.call(raw_site_args=...))
+            pos = list(self.raw_args)[: site["npos"]]
+            kws = {}
         else:
             env = self.prog.env
             vals = [S.build_value(v, env) for v in act[2]]
@@ -354,8 +358,9 @@ class Program:
         if "_F" not in self.glb:
             self._bind()
 
-    def call(self, args, kwargs=None, script=None, via=None):
+    def call(self, args, kwargs=None, script=None, via=None, raw_site_args=None):
         self.H.start(script)
+        self.H.raw_args = raw_site_args
         f = via if via is not None else self.f
         return capture(f, *args, **(kwargs or {}))
 
